@@ -89,3 +89,82 @@ func VerifH_C04_unpack_untrusted() {
 	})
 	verifAssert(!crashed, "no-go-panic-from-unpack")
 }
+
+// string.format with every format string "%" + up to 2 arbitrary bytes
+// (optionally followed by a literal), with no argument or one integer argument
+func VerifH_C04_format_any_short_directive() {
+	_, t := vhRT()
+	n := verifChoose("n", 3)
+	f := "%" + nondetString("f", n)
+	if verifTier() == 1 && verifChoose("tail", 2) == 1 {
+		f += "x"
+	}
+	nargs := verifChoose("nargs", 2)
+	argv := int64(verifChoose("argv", 3)) - 1
+	crashed := vhNoCrash(func() {
+		if nargs == 0 {
+			vhCallFn(t, format, 1, true, rt.StringValue(f))
+		} else {
+			// the directive parser is the subject: the argument is one of -1, 0, 1
+			vhCallFn(t, format, 1, true, rt.StringValue(f), rt.IntValue(argv))
+		}
+	})
+	verifAssert(!crashed, "no-go-panic-from-format-directive")
+}
+
+// vhCallSafe is vhCallFn for a function declared compliant with every
+// restriction (as the library loader declares it), so that it may be called
+// in a limited context.
+func vhCallSafe(t *rt.Thread, f rt.GoFunctionFunc, nargs int, hasEtc bool, args ...rt.Value) ([]rt.Value, error) {
+	gf := rt.NewGoFunction(f, "harness", nargs, hasEtc)
+	gf.SolemnlyDeclareCompliance(rt.ComplyCpuSafe | rt.ComplyMemSafe | rt.ComplyTimeSafe | rt.ComplyIoSafe)
+	term := rt.NewTerminationWith(nil, 0, true)
+	err := rt.Call(t, rt.FunctionValue(gf), args, term)
+	return term.Etc(), err
+}
+
+// string.rep with any count and short pieces inside a context with a (small,
+// symbolic) memory limit: result, error or termination of the context; no
+// panic and no allocation beyond what the accounting admitted
+func VerifH_C04_rep_any_count() {
+	_, t := vhRT()
+	s := nondetString("s", verifChoose("s_len", 2))
+	sep := nondetString("sep", verifChoose("sep_len", 2))
+	n := nondetInt64("n")
+	withSep := verifChoose("withsep", 2) == 1
+	// stated restriction: with both pieces empty the result is empty whatever
+	// the count (that loop is the subject of C05's metering harness)
+	verifAssume(!(withSep && len(s) == 0 && len(sep) == 0) || (n > -4 && n < 4))
+	// what the call machinery itself charges, measured with count 0 under a
+	// huge limit (a concrete number); the limit ranges over everything up to
+	// that plus 96 bytes
+	base, _ := t.CallContext(rt.RuntimeContextDef{HardLimits: rt.RuntimeResources{Memory: 1 << 40}}, func() error {
+		vhCallSafe(t, rep, 3, false, rt.StringValue(s), rt.IntValue(0))
+		return nil
+	})
+	m := nondetUint64("M")
+	verifAssume(m >= 1 && m <= base.UsedResources().Memory+96)
+	crashed := vhNoCrash(func() {
+		t.CallContext(rt.RuntimeContextDef{HardLimits: rt.RuntimeResources{Memory: m}}, func() error {
+			if withSep {
+				vhCallSafe(t, rep, 3, false, rt.StringValue(s), rt.IntValue(n), rt.StringValue(sep))
+			} else {
+				vhCallSafe(t, rep, 3, false, rt.StringValue(s), rt.IntValue(n))
+			}
+			return nil
+		})
+	})
+	verifAssert(!crashed, "no-go-panic-from-rep")
+}
+
+// the same call in a context WITHOUT memory limit: nothing bounds the
+// allocation, which is a Go panic (makeslice) or a fatal out-of-memory error
+// for large counts — recorded as a known finding
+func VerifH_C04_rep_unlimited_context() {
+	_, t := vhRT()
+	n := nondetInt64("n")
+	crashed := vhNoCrash(func() {
+		vhCallFn(t, rep, 3, false, rt.StringValue("ab"), rt.IntValue(n))
+	})
+	verifAssertKF(!crashed, "no-go-panic-from-rep-without-memory-limit", true, "C04-unlimited-context-allocation")
+}
